@@ -27,6 +27,7 @@
 #include <unistd.h>
 #include <sched.h>
 #include <sys/syscall.h>
+#include <dirent.h>
 
 #ifndef VH_FLAVOR
 #define VH_FLAVOR "plain"
@@ -345,29 +346,26 @@ inline void arm_stalls(Rng& r, std::initializer_list<uint32_t> ids, bool allow_s
 inline std::string os_threads_snapshot(uint64_t* total_ticks = nullptr) {
     auto read_all = [](std::map<int, std::pair<char, uint64_t>>& m) {
         char path[64];
-        for (int pass = 0; pass < 1; ++pass) {
-            FILE* d = popen("ls /proc/self/task 2>/dev/null", "r");
-            if (!d) return;
-            int tid;
-            std::vector<int> tids;
-            while (fscanf(d, "%d", &tid) == 1) tids.push_back(tid);
-            pclose(d);
-            for (int t : tids) {
-                snprintf(path, sizeof(path), "/proc/%d/task/%d/stat", getpid(), t);
-                FILE* f = fopen(path, "r");
-                if (!f) continue;
-                char buf[1024];
-                size_t n = fread(buf, 1, sizeof(buf) - 1, f);
-                fclose(f);
-                buf[n] = 0;
-                char* rp = strrchr(buf, ')');
-                if (!rp) continue;
-                char state = 0;
-                unsigned long ut = 0, stt = 0;
-                // after ") ": state ppid pgrp session tty tpgid flags minflt cminflt majflt cmajflt utime stime
-                sscanf(rp + 2, "%c %*d %*d %*d %*d %*d %*u %*u %*u %*u %*u %lu %lu", &state, &ut, &stt);
-                m[t] = {state, ut + stt};
-            }
+        std::vector<int> tids;
+        if (DIR* d = opendir("/proc/self/task")) {
+            while (auto e = readdir(d)) if (e->d_name[0] >= '0' && e->d_name[0] <= '9') tids.push_back(atoi(e->d_name));
+            closedir(d);
+        }
+        for (int t : tids) {
+            snprintf(path, sizeof(path), "/proc/self/task/%d/stat", t);
+            FILE* f = fopen(path, "r");
+            if (!f) continue;
+            char buf[1024];
+            size_t n = fread(buf, 1, sizeof(buf) - 1, f);
+            fclose(f);
+            buf[n] = 0;
+            char* rp = strrchr(buf, ')');
+            if (!rp) continue;
+            char state = 0;
+            unsigned long ut = 0, stt = 0;
+            // after ") ": state ppid pgrp session tty tpgid flags minflt cminflt majflt cmajflt utime stime
+            sscanf(rp + 2, "%c %*d %*d %*d %*d %*d %*u %*u %*u %*u %*u %lu %lu", &state, &ut, &stt);
+            m[t] = {state, ut + stt};
         }
     };
     std::map<int, std::pair<char, uint64_t>> a, b;
